@@ -291,3 +291,122 @@ def run_gen(ctx):
 
 def driver_path():
     return os.path.join(LEAN_DIR, ".lake", "build", "bin", "lwdriver")
+
+
+# ----------------------------------------------------------------------------- suites
+import re as _re
+
+
+def split_model(m):
+    a, sep, b = (m or "").partition(" ;; spec=")
+    return a, (b if sep else None)
+
+
+def spec_matches(c, spec):
+    """Does the implementation's canonical output satisfy the Spec's expectation?"""
+    if spec is None or spec == "any":
+        return c is not None and not c.startswith("CRASH")
+    if spec.startswith("relation ") or spec == "no crash":
+        return False
+    if c is None or c.startswith("CRASH"):
+        return False
+    if spec == "refuse":
+        return _re.match(r"^err -\d+", c) is not None
+    if spec.startswith("any-ok-or-refuse"):
+        return True
+    return c == spec
+
+
+def run_suite(ctx, exe, suite, lines, what, env=None, max_report=4, canon_c=None, relcheck=None):
+    """Differential run of one suite. Registers the correspondence obligation and the
+    spec-on-implementation obligation; files violations with the line as replay.
+    Returns (c_outs, m_outs, n_disagreements)."""
+    import diffrun
+    if not lines:
+        return [], [], 0
+    c_outs, m_outs, dis, crashes = diffrun.differential(exe, lines, env=env, canon_c=canon_c, canon_m=lambda m: split_model(m)[0])
+    ctx.count(len(lines))
+    specbad = 0
+    reported = 0
+    kinds = {}
+    rel = None
+    if relcheck is not None:
+        # second pass: the Spec relation evaluated on the implementation's own outputs
+        rl = [relcheck(l, c) for l, c in zip(lines, c_outs)]
+        idx = [i for i, x in enumerate(rl) if x is not None]
+        res = diffrun.parallel_map(diffrun.run_driver, diffrun.chunked([rl[i] for i in idx], 16)) if idx else []
+        flat = [x for ch in res for x in ch]
+        rel = dict(zip(idx, flat))
+    for i, (l, c, m) in enumerate(zip(lines, c_outs, m_outs)):
+        mm, spec = split_model(m)
+        if rel is not None:
+            verdict = rel.get(i)
+            if c is None or c.startswith("CRASH"):
+                spec = "no crash"
+            elif verdict is None or verdict == "holds":
+                spec = "any"
+            else:
+                spec = "relation " + verdict
+        cc = canon_c(c) if (canon_c and c) else c
+        key = (l.split()[0], (cc or "").split()[0] if cc else "none")
+        kinds[key] = kinds.get(key, 0) + 1
+        ctx.distinct.add((suite, l.split()[0], cc))
+        if not spec_matches(cc, spec):
+            specbad += 1
+            if reported < max_report:
+                reported += 1
+                ctx.violation("%s:%s" % (suite, l), "%s: `%s` gives %r, the property requires %r" % (what, l if len(l) < 200 else l[:200] + "...", c, spec),
+                              {"kind": "line", "suite": suite, "line": l, "observed": c, "expected": spec, "model": mm})
+    ctx.oblige("correspondence", "%s: C = model on %d lines" % (suite, len(lines)), not dis and not crashes,
+               "%d disagreements, %d crashes%s" % (len(dis), len(crashes), ("; first: %r" % (dis[0][1:],)) if dis else ""))
+    ctx.oblige("spec-on-impl", "%s: implementation output satisfies the Spec on %d lines" % (suite, len(lines)), specbad == 0, "%d failing" % specbad)
+    ctx.coverage.setdefault("suites", {})[suite] = {"lines": len(lines), "disagreements": len(dis), "crashes": len(crashes), "spec_failures": specbad,
+                                                     "outcome_histogram": {"%s/%s" % k: v for k, v in sorted(kinds.items(), key=lambda kv: -kv[1])[:12]}}
+    if lines:
+        i = len(lines) // 3
+        ctx.sample({"suite": suite, "op": lines[i][:300], "c": (c_outs[i] or "")[:300], "model": (m_outs[i] or "")[:300]})
+    ctx._pending_dis = getattr(ctx, "_pending_dis", []) + [(suite, l, c, m) for _, l, c, m in dis[:5]]
+    return c_outs, m_outs, len(dis) + len(crashes)
+
+
+def conclude(ctx, broken):
+    """Common tail of every check: broken proof obligations / correspondences without a concrete
+    failing input still mean the property is no longer shown."""
+    if broken and not ctx.violations and not ctx.known_hits:
+        for name, detail in broken[:3]:
+            ctx.violation("theorem:" + name, "proof obligation no longer checks: %s — %s" % (name, detail[:300]), {"broken": name, "detail": detail}, found_input=False)
+    pend = getattr(ctx, "_pending_dis", [])
+    if pend and not ctx.violations and not ctx.known_hits:
+        ctx.violation("correspondence:" + pend[0][0], "model and implementation disagree (suite %s) but no input violating the property was found" % pend[0][0],
+                      {"broken": "correspondence " + pend[0][0], "examples": [(s, l[:300], c, m) for s, l, c, m in pend[:5]]}, found_input=False)
+
+
+def prepare(ctx, module, variant="asan"):
+    """gen -> prove -> harness. Returns (ok, broken, data, exe) or None when the run cannot continue."""
+    import diffrun
+    meta, data = run_gen(ctx)
+    if meta is None:
+        return None
+    ok, broken, failed = lean_prove(ctx, module)
+    exe, err = diffrun.build_harness(variant)
+    if exe is None:
+        ctx.oblige("harness", "harness builds from the working tree", False, (err or "")[-500:])
+        ctx.violation("harness:build", "the working tree does not compile into the harness", {"broken": "harness build", "error": (err or "")[-2000:]}, found_input=False)
+        return None
+    if not os.path.exists(driver_path()):
+        ctx.violation("driver:missing", "Lean driver did not build", {"broken": "lwdriver"}, found_input=False)
+        return None
+    return ok, broken, data, exe
+
+
+def replay_line(rp, canon_c=None):
+    import diffrun
+    if rp.get("kind") != "line":
+        return False, "replay names a broken obligation, not an input: %s" % rp.get("broken")
+    exe, err = diffrun.build_harness("asan")
+    if exe is None:
+        return False, "harness does not build: %s" % (err or "")[-300:]
+    co, mo, d, cr = diffrun.differential(exe, [rp["line"]], canon_m=lambda m: split_model(m)[0])
+    spec = split_model(mo[0])[1]
+    c = canon_c(co[0]) if canon_c and co[0] else co[0]
+    return spec_matches(c, spec), "%s -> %r (property requires %r)" % (rp["line"][:300], co[0], spec)
